@@ -82,6 +82,7 @@ func checkCmd(args []string) int {
 		return cr.Finish("proof", checkerCmd, append(commonTrusted, "the structural order-independence rules of engine/vc/determinism.go"), "one obligation per nondeterminism source (map range, maps.Keys, environment/clock/random read, goroutine/select) in every function reachable from the generator entry points; each map range must fit an order-independence rule")
 	case "C04", "C05":
 		entries := vc.FixtureCorpus(*repo, "get_params", "params", "get_query_array", "path_parameters", "components_params", "request_body", "router")
+		entries = append(entries, vc.ParamCorpus(corpusDir)...)
 		if *tier != "quick" {
 			entries = vc.FixtureCorpus(*repo)
 			entries = append(entries, vc.RouteCorpus(corpusDir, "quick", seed)...)
